@@ -345,6 +345,18 @@ func mirrorDiff(e, d []Op, where string) []string {
 				et, dt = "", ""
 			}
 		}
+		if ek == "fn" && dk == "fn" && !strings.HasPrefix(et, "closure ") && !strings.HasPrefix(dt, "closure ") {
+			// a pair of plain helper functions (encodeX / decodeX, themselves compared as a pair): same name up to the
+			// direction, and the same fields handed over in the same order
+			et, dt = fnPairName(et), fnPairName(dt)
+			if et == dt && len(eo.Args) == len(do.Args) {
+				for k := range eo.Args {
+					if eo.Args[k] != do.Args[k] {
+						diffs = append(diffs, fmt.Sprintf("%s op %d: helper argument %d: encoder passes %s, decoder passes %s", where, i, k+1, eo.Args[k], do.Args[k]))
+					}
+				}
+			}
+		}
 		if ek != dk || et != dt {
 			diffs = append(diffs, fmt.Sprintf("%s op %d: encoder %s vs decoder %s", where, i, strings.TrimSpace(renderHead(eo)), strings.TrimSpace(renderHead(do))))
 			continue
@@ -1411,4 +1423,16 @@ func c11BufferDiscipline(c *Ctx) {
 		}
 	}
 	c.Check(n >= 1, rule, "inventory", "", fmt.Sprintf("%d direct writes of the Encoder's underlying stream examined", n))
+}
+
+// fnPairName: "pkg.encodeFoo" and "pkg.decodeFoo" (any capitalisation of the first letter) name the same pair.
+func fnPairName(full string) string {
+	i := strings.LastIndex(full, ".")
+	pkg, n := full[:i+1], full[i+1:]
+	for _, pfx := range []string{"Encode", "Decode", "encode", "decode"} {
+		if strings.HasPrefix(n, pfx) {
+			return pkg + "#code" + n[len(pfx):]
+		}
+	}
+	return full
 }
